@@ -1839,4 +1839,21 @@ theorem noLoneCR_of_noCR (c : List Nat) (h : ∀ x ∈ c, x ≠ 13) : noLoneCR c
     have h1 : c ≠ 13 := h c (by simp)
     simp [noLoneCR, h1, ih (fun x hx => h x (by simp [hx]))]
 
+theorem firstBreak_none (s : List Nat) (h : firstBreak s = none) : ∀ x ∈ s, bytesBreak x = false := by
+  induction s with
+  | nil => intro x hx; cases hx
+  | cons c cs ih =>
+    rw [firstBreak] at h
+    by_cases hc : bytesBreak c = true
+    · simp [hc] at h
+    · have hc' : bytesBreak c = false := by simpa using hc
+      simp only [hc', Bool.false_eq_true, if_false] at h
+      cases hj : firstBreak cs with
+      | some j => rw [hj] at h; simp at h
+      | none =>
+        intro x hx
+        rcases List.mem_cons.mp hx with rfl | hx
+        · exact hc'
+        · exact ih hj x hx
+
 end C19
